@@ -60,6 +60,17 @@ M = [
  ('C05-i', 'C05', 'core/matcher.py', "        return self.expected == value", "        return self.expected is value", 1),
  ('C05-j', 'C05', 'core/matcher.py', "mock = wl.object.MockObject(id=0, type=arg.type)", "mock = wl.object.MockObject(id=1, type=arg.type)", 1),
  ('C05-k', 'C05', 'core/matcher.py', "            if not found_match:\n                result = False\n                break", "            if not found_match:\n                result = False", 0),
+ ('C01-a', 'C01', 'backends/libwayland_debug_output/parse.py', "    while i < len(args_str) and args_str[i] != '\"':", "    while i < len(args_str) and args_str[i] != \"'\":", 1),
+ ('C01-b', 'C01', 'backends/libwayland_debug_output/parse.py', "int_re = r'(?P<int>-?\\d+)'", "int_re = r'(?P<int>\\d+)'", 1),
+ ('C01-c', 'C01', 'backends/libwayland_debug_output/parse.py', "obj_re = r'(?P<obj_type>\\w+)[@#](?P<obj_id>\\d+)'", "obj_re = r'(?P<obj_type>\\w+)[@](?P<obj_id>\\d+)'", 1),
+ ('C01-d', 'C01', 'backends/libwayland_debug_output/parse.py', "            start = i + 2", "            start = i + 1", 1),
+ ('C01-e', 'C01', 'backends/libwayland_debug_output/parse.py', "        conn_id = 'PARSED'", "        conn_id = 'parsed'", 1),
+ ('C01-f', 'C01', 'backends/libwayland_debug_output/parse.py', "        if args_str[i] == '\"':\n            i = end_of_str(args_str, i)\n", "", 1),
+ ('C01-g', 'C01', 'backends/libwayland_debug_output/parse.py', "        if args_str[i] == '\\\\':\n            i += 1\n        i += 1\n    return i", "        if args_str[i] == '\\\\':\n            i += 1\n        i += 2\n    return i", 1),
+ ('C17-a', 'C17', 'core/util.py', "        if color_output and color:\n            result += '\\x1b[0m'", "        if color:\n            result += '\\x1b[0m'", 1),
+ ('C17-b', 'C17', 'core/matcher.py', "    text = no_color(text).strip()\n    if text == '':\n        raise RuntimeError('No matcher given')", "    text = text.strip()\n    if text == '':\n        raise RuntimeError('No matcher given')", 1),
+ ('C17-c', 'C17', 'frontends/tui/controller.py', "        input_line = no_color(input_line).strip()", "        input_line = input_line.strip()", 1),
+ ('C17-d', 'C17', 'core/wl/arg.py', "            return color(int_color, str(self.value))\n\n    class Float", "            return color(int_color, str(self.value)) if not color_output else color(int_color, hex(self.value))\n\n    class Float", 1),
  ('C16-a', 'C16', 'frontends/tui/controller.py', 'if delta > 1.0:', 'if delta >= 1.0:', 1),
  ('C16-b', 'C16', 'frontends/tui/controller.py', "                ')')\n            self.last_shown_timestamp = None", "                ')')", 1),
  ('C06-a', 'C06', 'frontends/tui/controller.py', 'if self.current_connection is None or connection == self.current_connection:', 'if True:', 1),
